@@ -95,6 +95,15 @@ func call(d *netconf.Driver, q Req, extra []util.Option) (*response.NetconfRespo
 	return d.Commit(o...)
 }
 
+func hasCap(caps []string, sub string) bool {
+	for _, c := range caps {
+		if strings.Contains(c, sub) {
+			return true
+		}
+	}
+	return false
+}
+
 // plannedTimeout is the operation timeout of a request the server is told not to answer.
 const plannedTimeout = 200 * time.Millisecond
 
@@ -106,7 +115,7 @@ type sessionOut struct {
 	wire   int
 }
 
-func viol(c *complaint, pos int, q Req, srv *ncsim.Server) *mon.Result {
+func viol0(c *complaint, pos int, q Req, srv *ncsim.Server) *mon.Result {
 	ev := map[string]interface{}{"position": pos + 1, "shape": q.Shape, "messages_decoded": len(srv.Msgs), "proto_err": srv.ProtoErr,
 		"wire_bytes": len(srv.Wire), "wire_tail": around(srv.Wire, len(srv.Wire))}
 	return &mon.Result{Verdict: mon.Violated, Key: c.key, NonTrivial: true,
@@ -119,6 +128,12 @@ func runSession(s Session, force, header bool) (*sessionOut, *mon.Result) {
 	caps := []string{ncsim.Cap10}
 	if s.Version == "1.1" || s.Via == "preferred" {
 		caps = append(caps, ncsim.Cap11)
+	}
+	caps = append(caps, s.Caps...)
+	viol := func(c *complaint, pos int, q Req, srv *ncsim.Server) *mon.Result {
+		r := viol0(c, pos, q, srv)
+		r.Detail += fmt.Sprintf(" [server hello: with-defaults %s; capabilities %q]", s.WD, caps)
+		return r
 	}
 	srv := &ncsim.Server{HelloBytes: ncsim.Hello(caps, "7")}
 	dev := &device{Server: srv}
@@ -316,6 +331,15 @@ func runSession(s Session, force, header bool) (*sessionOut, *mon.Result) {
 		if inputLen >= 100000 {
 			out.obs["requests_over_100KB"]++
 		}
+		if q.Defaults != "" {
+			out.tags["with_defaults="+q.Defaults+" vs hello:"+s.WD] = true
+		}
+		if strings.HasSuffix(q.Shape, "-xpath") {
+			out.tags[fmt.Sprintf("xpath filter vs hello :xpath=%v", hasCap(s.Caps, ":xpath:"))] = true
+		}
+		if strings.HasPrefix(q.Shape, "commit-") {
+			out.tags[fmt.Sprintf("%s vs hello :confirmed-commit=%v", q.Shape, hasCap(s.Caps, ":confirmed-commit:"))] = true
+		}
 		out.tags["op="+opOf(q.Shape)] = true
 		out.tags[fmt.Sprintf("cell=%s/%s/force=%v/header=%v", q.Shape, s.Version, force, header)] = true
 		out.tags[fmt.Sprintf("position=%d", i+1)] = true
@@ -362,10 +386,10 @@ func Run(s Session) mon.Result {
 				if s.Hazard != "" {
 					c.detail += " [argument: " + clipS(s.Reqs[i].Arg.Str()) + "]"
 				}
-				return *viol(c, i, s.Reqs[i], &ncsim.Server{})
+				return *viol0(c, i, s.Reqs[i], &ncsim.Server{})
 			}
 			if _, err := parseDoc(main.inputs[i]); err != nil {
-				return *viol(bad("c03/self-closing-rewrite:not-well-formed", "forced Input is not well-formed: %v", err), i, s.Reqs[i], &ncsim.Server{})
+				return *viol0(bad("c03/self-closing-rewrite:not-well-formed", "forced Input is not well-formed: %v", err), i, s.Reqs[i], &ncsim.Server{})
 			}
 			obs["empty_pairs_self_closed"] += int64(rw)
 			obs["empty_pairs_left_as_pair"] += int64(kept)
@@ -383,7 +407,7 @@ func Run(s Session) mon.Result {
 		obs["twin_sessions"]++
 		for i := range s.Reqs {
 			if c := checkHeaderTwin(twin.inputs[i], main.inputs[i]); c != nil {
-				return *viol(c, i, s.Reqs[i], &ncsim.Server{})
+				return *viol0(c, i, s.Reqs[i], &ncsim.Server{})
 			}
 			obs["header_twins_compared"]++
 		}
@@ -399,7 +423,7 @@ func Run(s Session) mon.Result {
 			}
 		}
 	}
-	tags := []string{"kind=" + s.Kind, "via=" + s.Via, fmt.Sprintf("session_length=%d", len(s.Reqs)), "seg=" + s.Seg.Mode}
+	tags := []string{"hello_with_defaults=" + s.WD, fmt.Sprintf("hello_extra_capabilities=%d", len(s.Caps)), "kind=" + s.Kind, "via=" + s.Via, fmt.Sprintf("session_length=%d", len(s.Reqs)), "seg=" + s.Seg.Mode}
 	for t := range main.tags {
 		tags = append(tags, t)
 	}
@@ -426,7 +450,8 @@ func init() {
 		Assumptions: []string{
 			"caller arguments are well-formed XML content in valid UTF-8 (generated by construction); datastore names are valid XML names; with-defaults modes are the four RFC 6243 modes; confirm-timeout <= 4294967295",
 			"arguments never contain the 1.0 delimiter ]]>]]> (it cannot occur in well-formed content)",
-			"the server answers every request at once with <ok/>; the client-side reading of replies is not judged here (C02/C08)",
+			"the request must carry exactly what the caller asked for whatever the server hello announced (with-defaults / xpath / confirmed-commit / ... capabilities present or absent in PRNG combinations)",
+			"the server answers every request at once with <ok/> (except the planned unanswered requests of the noanswer sessions); the client-side reading of replies is not judged here (C02/C08)",
 			"whitespace-only element content counts as empty for the self-closing option (the option's documented intent)",
 			"trusted base: ncwire strict codec, ncsim stream grammar (1.0: one return after a message; 1.1: two), encoding/xml as well-formedness judge",
 			"arguments whose CDATA sections or comments contain text that looks like an empty element pair (known finding: the regexp rewrite alters it) are confined to the 'hazard' sessions; ordinary arguments carry CDATA / comments without '<' ... '</' look-alikes",
